@@ -1012,8 +1012,10 @@ namespace fixedmath
       result = atan_sum<prec_, atan_11o16, _11o16>( x );
     else if( x < _39o16 )
       result = atan_sum<prec_, atan_19o16, _19o16>( x );
-    else
+    else if( x < (fixed_internal{1}<<(prec_+13)) )
       result = atan_sum<prec_, atan_39o16, _39o16>( x );
+    else // arctan (x) = 0.5 * pi - arctan(1/x), x*c in atan_sum would exceed 64 bits for large x
+      result = fixpidiv2.v - atan<prec_>( detail::div_<prec_>( detail::fix_<prec_>(1), x ) );
     
     if( !sign_)
       return as_fixed(result);
